@@ -31,6 +31,8 @@ WITNESS = {
     "standin_schema_e2e": ("src/protocol/handler.rs", "Handler::query_program: 12 declared column types (vector(N) up to 1536) x non-conforming literals, mixed bulk insert / single bad row / conforming insert"),
     "standin_delete": ("src/storage_engine/mod.rs", "relations of 0..300 tuples x 7 delete batches mixing present/absent/repeated tuples"),
     "standin_histories_clean": ("src/storage_engine/mod.rs", "every clean history of length <= 3 (thorough 5) over {insert,delete} x 2 tuples + save/compact/restart steps, with and without a final save; one bulk history (4200 inserts, 1404 deletes)"),
+    "standin_stratification": ("src/protocol/handler.rs", "validate_rules_stratification on all 262144 rule sets over 3 predicates (each ordered pair: no / positive / negated / both dependencies); Handler::query_program on 12 rule sets x every split of their clauses between persistent and session rules"),
+    "standin_parse_all_first": ("src/protocol/handler.rs", "Handler::query_program: programs of 1..=3 statements from a pool of 9 (all of length <= 2, every 6th of length 3) x a malformed statement (those of 15 candidates that parse_statement rejects) at every position; 1/3 of the well-formed programs compared with statement-by-statement submission"),
     "standin_histories_dirty": ("src/storage_engine/mod.rs", "every history of length <= 3 over 2 tuples with a re-insert or an absent delete, save, restart"),
 }
 
